@@ -2,7 +2,7 @@
 import re
 
 from .. import coqbuild, edtie, irtools as T
-from ..common import GLOBAL_TRUSTED_BASE
+from ..common import CORPUS_SEED, GLOBAL_TRUSTED_BASE
 from ..model import call_many
 from ..normtools import enc_def, enc_typ, state_of
 from ..pool import guarded, run_cases
@@ -87,18 +87,22 @@ def rounds_case(arg):
 
 
 def worker(batch):
-    out = {"n": 0, "items": [], "corr": [], "stable": 0, "changed_in_round1": 0}
-    for tag, fmt, cfg, ir, nrounds in batch:
+    out = {"n": 0, "items": [], "corr": [], "stable": 0, "changed_in_round1": 0, "corpus_keys": []}
+    for entry in batch:
+        tag, fmt, cfg, ir, nrounds = entry[:5]
+        ckey = entry[5] if len(entry) > 5 else None
+        if ckey:
+            out["corpus_keys"].append(ckey)
         out["n"] += 1
         st, r = guarded(rounds_case, (tag, fmt, cfg, ir, nrounds), 120)
         if st != "ok":
-            out["items"].append(("C08/harness/" + st, {"config": tag, "detail": r}, ir))
+            out["items"].append(("C08/harness/" + st, {"config": tag, "detail": r, "corpus_key": ckey}, ir))
             continue
         if "raised" in r:
             k = r["raised"][0]
             # a failure in round 1 is not a drift; a failure in a LATER round is (the re-emission of a round-tripped interface)
             out["items"].append(("C08/%s/raises-in-round-%s%s" % (tag, "1" if k == 1 else "n", "" if tag in ("docstring-google", "docstring-numpydoc") else "/" + r["raised"][1]),
-                                 {"round": k, "detail": r["raised"]}, ir))
+                                 {"round": k, "detail": r["raised"], "corpus_key": ckey}, ir))
             continue
         outs = r["outs"]
         if T.jsonable(ir).get("params") != outs[0].get("params"):
@@ -121,7 +125,7 @@ def worker(batch):
                 if not its:
                     its = [("other", {"in": outs[k - 1], "out": outs[k]})]
                 for cls, det in its:
-                    out["items"].append(("C08/%s/%s" % (tag, coarsen(tag, cls)), dict(det, between_rounds=[k, k + 1]), ir))
+                    out["items"].append(("C08/%s/%s" % (tag, coarsen(tag, cls)), dict(det, between_rounds=[k, k + 1], corpus_key=ckey), ir))
                 break
         if ok:
             out["stable"] += 1
@@ -147,6 +151,13 @@ def worker(batch):
 def collect(ctx, n_ir, rounds_max):
     rng = ctx.rng
     work = []
+    import random as _random
+    crng = _random.Random(CORPUS_SEED)
+    for i in range(60):
+        for tag, fmt, cfg, dom in CONFIGS:
+            ir_c = gen_ir(crng, dom)
+            if i < (6 if n_ir < 100 else 60):
+                work.append((tag, fmt, cfg, ir_c, 3, "c%d|%s" % (i, tag)))
     LONG_TYPES = ["Union[Tuple[np.ndarray, np.ndarray], Tuple[tf.Tensor, tf.Tensor], Tuple[List[int], List[int]], Dict[str, List[int]]]",
                   "Optional[Union[Tuple[tf.data.Dataset, tf.data.Dataset], Tuple[np.ndarray, np.ndarray], Dict[str, Tuple[int, int]]]]"]
     for i in range(n_ir):
@@ -189,6 +200,7 @@ def collect(ctx, n_ir, rounds_max):
             continue
         for k in ("n", "stable", "changed_in_round1"):
             agg[k] += r[k]
+        agg.setdefault("corpus_keys", []).extend(r.get("corpus_keys", []))
         items += r["items"]
         corr += r["corr"][:3]
     return agg, items, corr, work
@@ -199,7 +211,7 @@ def run(ctx):
     agg, items, corr, work = collect(ctx, 25 if ctx.quick else 900, 4)
     for cls, det, ir in items:
         ctx.item(cls, {"stage": "repeated emit -> text -> parse rounds on the implementation", "clause": cls,
-                       "input": T.jsonable(ir) if ir else None, "detail": det})
+                       "input": T.jsonable(ir) if ir else None, "detail": det}, corpus_key=det.get("corpus_key") if isinstance(det, dict) else None)
     if not ctx.violations:
         if corr:
             ctx.violation({"stage": "correspondence: Model/Norm.v rounds vs implementation rounds; Model/ExtractDefault.v vs extract_default",
@@ -220,7 +232,7 @@ def run(ctx):
         "rule": "IRs incl. descriptions with type-hint trigger words, non-suffix defaults, List/Union/dotted types x 14 format "
                 "configurations x 2..4 rounds; non-trivial = the first round changed the parameters (so stability of round 2 is not vacuous)",
         "sequences": agg["n"], "sequences_stable_after_round_1": agg["stable"], "first_round_changed_something": agg["changed_in_round1"],
-        "extract_default_cases": agg["ed"],
+        "extract_default_cases": agg["ed"], "corpus_sequences_run": len(agg.get("corpus_keys", [])),
         "model_disagreements": len(corr), "traces_validated_against_impl": agg["n"] + agg["ed"],
         "samples": [T.jsonable(work[0][3]), work[0][0]],
         "build": {k: status[k] for k in ("build_s", "forbidden")},
